@@ -70,10 +70,10 @@ type MDP struct {
 
 func New() *MDP { return &MDP{Table: map[Key]bool{}} }
 
-func (m *MDP) Close()                         {}
-func (m *MDP) HandleReport(h report.Handler)  { m.Handler = h }
-func (m *MDP) FaultableCalls() int            { return m.nFault }
-func (m *MDP) TakeLog() []Call                { l := m.Log; m.Log = nil; return l }
+func (m *MDP) Close()                        {}
+func (m *MDP) HandleReport(h report.Handler) { m.Handler = h }
+func (m *MDP) FaultableCalls() int           { return m.nFault }
+func (m *MDP) TakeLog() []Call               { l := m.Log; m.Log = nil; return l }
 func (m *MDP) Rows() []Key {
 	var out []Key
 	for k := range m.Table {
